@@ -437,7 +437,7 @@ C18 ==
 (* C16  commands fail loudly: outcome classes under environment faults     *)
 (***************************************************************************)
 Commands == {"copy", "diff", "sum", "sum-copy", "sum-diff", "view", "view-raw", "generate"}
-Faults == {"none", "textout-unopenable", "source-missing", "source-corrupt", "dest-dir-readonly", "dest-corrupt"}
+Faults == {"none", "textout-unopenable", "textout-full", "source-missing", "source-corrupt", "dest-dir-readonly", "dest-corrupt"}
 Writers == {"copy", "sum-copy", "generate"}
 HasDest == {"copy", "sum-copy", "diff", "sum-diff", "generate"}
 
@@ -446,6 +446,9 @@ HasDest == {"copy", "sum-copy", "diff", "sum-diff", "generate"}
 FaultOutcome(c, f) ==
   CASE f = "none" -> {"ok", "diff"}
     [] f = "textout-unopenable" -> {"err"}
+    [] f = "textout-full" ->                        \* every command writes at least one line; the write or the final flush fails
+         IF c \in {"diff", "sum-diff"} THEN {"err", "diff"}   \* (a found difference is reported in preference to the write error)
+         ELSE {"err"}
     [] f = "source-missing" ->
          (CASE c \in {"copy", "sum", "sum-copy", "view", "view-raw"} -> {"notexist"}
             [] c = "diff" -> {"diff"}                       \* a missing side is a reported difference
@@ -461,7 +464,7 @@ FaultOutcome(c, f) ==
 C16Table ==
   \A c \in Commands, f \in Faults :
     /\ FaultOutcome(c, f) \subseteq {"ok", "diff", "err", "notexist"}
-    /\ (f = "textout-unopenable") => "ok" \notin FaultOutcome(c, f)
+    /\ (f \in {"textout-unopenable", "textout-full"}) => "ok" \notin FaultOutcome(c, f)
     /\ (f \in {"dest-dir-readonly", "dest-corrupt"} /\ c \in Writers) => "ok" \notin FaultOutcome(c, f)
 
 FaultRows == [c \in Commands |-> [f \in Faults |-> FaultOutcome(c, f)]]
